@@ -145,6 +145,9 @@ func c14Scenario(name string, n, conc int, menu []int, cmode int, tags bool, d i
 // c14ScenarioH: the judged query is preceded by warm queries through the same
 // instance (all their exchanges fail at once); upstreams are configured with
 // max_conns.
+// c14WarmMenu: outcome menu of the earlier queries of a history scenario (default: all fail)
+var c14WarmMenu = map[string][]int{}
+
 func c14ScenarioH(name string, n, conc int, menu []int, cmode int, tags bool, d, warm, maxConns int) vr.Scenario {
 	var sys *c14sys
 	body := func() {
@@ -161,8 +164,11 @@ func c14ScenarioH(name string, n, conc int, menu []int, cmode int, tags bool, d,
 		}
 		for w := 0; w < warm; w++ {
 			s.menu = []int{uError}
+			if wm, ok := c14WarmMenu[name]; ok {
+				s.menu = wm // e.g. an early return on a good answer while another helper is still waiting for its upstream
+			}
 			wq := new(dns.Msg)
-			wq.SetQuestion("forward.example.", dns.TypeA)
+			wq.SetQuestion(fmt.Sprintf("earlier%d.example.", w), dns.TypeA)
 			_ = f.Exec(context.Background(), query_context.NewContext(wq))
 		}
 		if warm > 0 {
@@ -442,5 +448,9 @@ func TestVerifC14(t *testing.T) {
 		c14ScenarioH("n2-c1-maxconns1-after-2-failures", 2, 1, small, 0, false, d, 2, 1),
 		c14ScenarioH("n1-c3-maxconns2-after-3-failures", 1, 3, small, 0, false, d, 3, 2),
 	}
+	// an earlier query returned on its first good answer while its other helper was still waiting
+	// (it ends 1 s later); the judged query is still waiting then: it must get nothing of the earlier one
+	c14WarmMenu["n2-c2-after-an-early-return"] = []int{uGood, uSlowGood}
+	scs = append(scs, c14ScenarioH("n2-c2-after-an-early-return", 2, 2, []int{uNever, uSlowGood, uServfail}, 0, false, d, 1, 0))
 	vr.RunScenarios("C14", scs)
 }
